@@ -37,6 +37,11 @@ def gen_activation():
                  "columns[c] = (columns[c] == 'y')", "columns[c] = float(columns[c]) if columns[c].strip() else 0.",
                  "dict(zip(COLUMN_NAMES, columns))", "table[kw['Z']][kw['A']]"):
         need(frag in init, "activation.init no longer contains %r: the reader model must be revisited" % frag)
+    # does activity() still switch to the small-argument formula?  (the model follows the source)
+    body_act = ast.get_source_segment(src, _func(tree, "activity"))
+    has_test = "abs(U) < 1e-10 and abs(V) < 1e-10" in body_act
+    has_formula = "W * (V-U+(V+U)/2)" in body_act
+    need(has_test == has_formula, "activity(): the small-argument test and its formula no longer go together")
     dat = os.path.join(PKG, "activation.dat")
     with open(dat, "rb") as f:
         raw = f.read()
@@ -52,8 +57,12 @@ def gen_activation():
         "Definition act_int_columns : list Z := [%s]%%Z." % "; ".join(str(i) for i in ints),
         "Definition act_bool_columns : list Z := [%s]%%Z." % "; ".join(str(i) for i in bools),
         "Definition act_float_columns : list Z := [%s]%%Z." % "; ".join(str(i) for i in floats),
+        "Definition act_small_branch : bool := %s." % ("true" if has_test else "false"),
     ])
     write("ActivationDat", "periodictable/activation.dat, periodictable/activation.py", body)
 
 
 GENERATORS = {"ActivationDat": gen_activation}
+
+# properties whose checks need these generated files (a failure here only breaks those)
+SERVES = ['C14', 'C15']
